@@ -447,6 +447,7 @@ type loopFan struct {
 	maxReported         bool
 	pendingBlind        *pendingViolation
 	pollAttempts        int           // RPM polls of any outcome
+	lastPollT           time.Duration // time of the last one
 	firstCycT, lastCycT time.Duration // first and last regulation cycle
 }
 
@@ -746,6 +747,7 @@ func (o *loopOracle) OnEvent(ev *kernel.Event) {
 	lf := o.fans[fan]
 	if lf != nil {
 		lf.pollAttempts++
+		lf.lastPollT = ev.T
 	}
 	if lf == nil || !lf.spec.NeverStop || !ok {
 		return
@@ -810,26 +812,28 @@ func (o *loopOracle) Finish(st *stage.Stage, res *check.Result) {
 			}
 			// a fan with a tachometer whose rotor was blocked for many RPM polling periods while it was being
 			// regulated, and whose tachometer fan2go never polled at all: no number of polls bounds that stall
-			if fs := st.W.Fans[id]; fs != nil && fs.RpmPath != "" && lf.pollAttempts == 0 && lf.cycles >= 10 {
+			if fs := st.W.Fans[id]; fs != nil && fs.RpmPath != "" && lf.cycles >= 10 {
+				// ... counted from the last time fan2go did read the tachometer (from the first cycle if it never did)
+				since := max(lf.firstCycT, lf.lastPollT)
 				blocked := time.Duration(0)
 				for _, iv := range lf.spec.Plant.Stalls {
 					from, to := iv.From.D(), iv.To.D()
 					if to == 0 || to > lf.lastCycT {
 						to = lf.lastCycT
 					}
-					if from < lf.firstCycT {
-						from = lf.firstCycT
+					if from < since {
+						from = since
 					}
 					if to > from {
 						blocked += to - from
 					}
 				}
 				if lf.spec.Plant.NeverSpin {
-					blocked = lf.lastCycT - lf.firstCycT
+					blocked = lf.lastCycT - since
 				}
 				if need := 10*st.Sc.RpmPoll.D() + 10*time.Second; blocked > need {
-					res.Violate("C10", "raise-within-bound", "raise-within-bound never-polled fan="+lf.spec.Kind, 0, nil,
-						"fan %s has a tachometer (%s) and its rotor was blocked for %s of its regulation (rpmPollingRate %s), yet fan2go never read the tachometer: the stall can not be noticed", id, fs.RpmPath, blocked, st.Sc.RpmPoll.D())
+					res.Violate("C10", "raise-within-bound", "raise-within-bound tachometer-not-polled fan="+lf.spec.Kind, 0, nil,
+						"fan %s has a tachometer and its rotor was blocked for the last %s of its regulation (rpmPollingRate %s), yet fan2go did not read the tachometer once in that time (%d reads before): the stall can not be noticed", id, blocked, st.Sc.RpmPoll.D(), lf.pollAttempts)
 				}
 			}
 			// a fan stalled at its maximum: the controller must have reported and stopped
@@ -884,7 +888,12 @@ func init() {
 		sc := genLoop("c10", seed, tier, loopOpts{kinds: []string{"hwmon", "hwmon", "file"}, maxFans: 1, neverStopP: 1, stallP: 1, neverSpinP: 0.25, identityOnly: r.Bool(0.6), constCurve: true, stableAlgos: true,
 			horizonLo: 40, horizonHi: 60, rpmWin: []int{win}})
 		c10Tune(sc, r, win)
-		if tr := kernel.NewRand(seed, "c10.3rd"); tr.Bool(0.3) {
+		if br := kernel.NewRand(seed, "c10.blindmonitor"); br.Bool(0.2) && sc.Fans[0].Kind != "cmd" {
+			// from some poll on, the RPM monitor cannot read the PWM value that goes with its RPM sample (the
+			// attribute answers EIO / EBUSY to that reader); the tachometer itself reads fine - and reads 0
+			sc.Faults = append(sc.Faults, world.FaultSpec{Op: "read", Target: "fan:" + sc.Fans[0].ID + ":pwm", Nth: br.Range(2, 12), Count: 1 << 30, Kind: kernel.Pick(br, "eio", "ebusy", "eagain"), OnlyFlags: "rpm"})
+			sc.Variant = "rpm-monitor-cannot-read-pwm"
+		} else if tr := kernel.NewRand(seed, "c10.3rd"); tr.Bool(0.3) {
 			// something else rewrites the PWM value after every (or every other) control cycle; fan2go
 			// re-writes its unchanged request each time and the rotor stays blocked all the same
 			f := &sc.Fans[0]
